@@ -463,7 +463,7 @@ func init() {
 		Run:            c04Run,
 		Replay:         c04Replay,
 		QuickBudget:    150 * time.Second,
-		ThoroughBudget: 25 * time.Minute,
+		ThoroughBudget: 15 * time.Minute,
 	})
 }
 
